@@ -162,9 +162,34 @@ func (c flCase) run(repeats int) (impl, fail, sig string) {
 		return "harness-error", err.Error(), "c15-harness"
 	}
 	info := &gtab.Info{ScriptList: sl, FeatureList: goFeatureList(c.FL), LookupList: make(gtab.LookupList, c.NLookups)}
+	// the tables as a caller can hold them: slices with spare capacity whose
+	// neighbours in memory are the other language systems' / features' slices
+	changed := shareOptional(info)
 	sw := c.SW.goMap()
 	res, obs := callFindLookups(info, lang, sw)
 	fail, sig = oracleFL(c, info, lang, sw, res, obs, repeats)
+	if fail == "" {
+		// a read-only query: the tables are untouched, and asking for the other
+		// language systems in between does not change the answer
+		if d := changed(); d != "" {
+			return obs, "FindLookups modified the tables: " + d, "c15-findlookups-modifies-input"
+		}
+		var tags []language.Tag
+		for t := range info.ScriptList {
+			tags = append(tags, t)
+		}
+		sort.Slice(tags, func(i, j int) bool { return tags[i].String() < tags[j].String() })
+		for _, t := range tags {
+			callFindLookups(info, t, sw)
+			callFindLookups(info, t, nil)
+		}
+		if d := changed(); d != "" {
+			return obs, "FindLookups (for another language of the same tables) modified the tables: " + d, "c15-findlookups-modifies-input"
+		}
+		if _, o2 := callFindLookups(info, lang, sw); o2 != obs {
+			return obs, fmt.Sprintf("after queries for the other language systems the call returned %s, first call returned %s", o2, obs), "c15-findlookups-nondeterministic"
+		}
+	}
 	return obs, fail, sig
 }
 
